@@ -1513,4 +1513,328 @@ theorem difference_spec (s other : IvSet) (hs : WF s.ivs) (ho : WF other.ivs) :
         · have := ho.head_lt r' hr'; have := ho.head_valid; omega)
       exact ⟨this.1, by first | rfl | trivial, this.2.1, this.2.2.1, this.2.2.2.1, this.2.2.2.2⟩
 
+
+-- ---------------------------------------------------------------------------------------------
+-- intersection::apply
+
+theorem wf_cons_of_mem (o : Interval) (R : List Interval) (hR : WF R) (ho : o.lo ≤ o.hi)
+    (h : ∀ x, Mem R x → o.hi + 1 < x) : WF (o :: R) :=
+  WF.cons ho hR (fun c hc => h c.lo ⟨c, hc, ⟨Nat.le_refl _, hR.1 c hc⟩⟩)
+
+theorem mem_tail_gt {b : Interval} {l : List Interval} (h : WF (b :: l)) : ∀ x, Mem l x → b.hi + 1 < x := by
+  rintro x ⟨c, hc, hx⟩; have := h.head_lt c hc; unfold inIv at hx; omega
+
+theorem splitOffA_spec (mx : Nat) (a b : Interval) (as : List Interval) (hwf : WF (a :: as)) (hmxs : ∀ c ∈ a :: as, c.hi ≤ mx)
+    (hb : b.hi < a.hi) (hlo : a.lo ≤ b.hi + 1) :
+    WF (splitOffA mx a b ++ as) ∧ (∀ c ∈ splitOffA mx a b ++ as, c.hi ≤ mx) ∧
+    (splitOffA mx a b ++ as).length ≤ as.length + 1 ∧
+    (∀ x, Mem (splitOffA mx a b ++ as) x → b.hi + 1 < x → (Mem (a :: as) x)) ∧
+    (∀ x, Mem (a :: as) x → b.hi + 1 < x → Mem (splitOffA mx a b ++ as) x) ∧
+    (∀ x, Mem (splitOffA mx a b ++ as) x → b.hi < x) := by
+  have hgt := mem_tail_gt hwf
+  have hmx : a.hi ≤ mx := hmxs a (List.mem_cons_self ..)
+  have hmxt : ∀ c ∈ as, c.hi ≤ mx := fun c hc => hmxs c (List.mem_cons_of_mem _ hc)
+  have hmxc : ∀ n : Interval, n.hi = a.hi → ∀ c ∈ n :: as, c.hi ≤ mx := by
+    intro n hn c hc; rcases List.mem_cons.1 hc with rfl | hc
+    · omega
+    · exact hmxt c hc
+  unfold splitOffA stepUpSat
+  simp only [Interval.isValid]
+  rw [if_pos (show b.hi < mx by omega)]
+  by_cases hsat : b.hi + 1 < mx
+  · rw [if_pos hsat]
+    by_cases hv : b.hi + 1 + 1 ≤ a.hi
+    · simp only [hv, decide_true, if_true]
+      refine ⟨?_, hmxc _ rfl, by simp, ?_, ?_, ?_⟩
+      · exact WF.cons hv hwf.tail hwf.head_lt
+      · intro x hx _
+        rcases (mem_cons ..).1 hx with h | h
+        · exact (mem_cons ..).2 (Or.inl (by unfold inIv at h ⊢; simp only at h; omega))
+        · exact (mem_cons ..).2 (Or.inr h)
+      · intro x hx hlt
+        rcases (mem_cons ..).1 hx with h | h
+        · exact (mem_cons ..).2 (Or.inl (by unfold inIv at h ⊢; simp only; omega))
+        · exact (mem_cons ..).2 (Or.inr h)
+      · intro x hx
+        rcases (mem_cons ..).1 hx with h | h
+        · unfold inIv at h; simp only at h; omega
+        · have := hgt x h; omega
+    · simp only [hv, decide_false, Bool.false_eq_true, if_false, List.nil_append]
+      refine ⟨hwf.tail, hmxt, by simp, ?_, ?_, ?_⟩
+      · intro x hx _; exact (mem_cons ..).2 (Or.inr hx)
+      · intro x hx hlt
+        rcases (mem_cons ..).1 hx with h | h
+        · unfold inIv at h; omega
+        · exact h
+      · intro x hx; have := hgt x hx; omega
+  · rw [if_neg hsat]
+    have : b.hi + 1 = a.hi := by omega
+    simp only [show b.hi + 1 ≤ a.hi by omega, decide_true, if_true]
+    refine ⟨?_, hmxc _ rfl, by simp, ?_, ?_, ?_⟩
+    · exact WF.cons (by show b.hi + 1 ≤ a.hi; omega) hwf.tail hwf.head_lt
+    · intro x hx hlt
+      rcases (mem_cons ..).1 hx with h | h
+      · unfold inIv at h; simp only at h; omega
+      · exact (mem_cons ..).2 (Or.inr h)
+    · intro x hx hlt
+      rcases (mem_cons ..).1 hx with h | h
+      · unfold inIv at h; omega
+      · exact (mem_cons ..).2 (Or.inr h)
+    · intro x hx
+      rcases (mem_cons ..).1 hx with h | h
+      · unfold inIv at h; simp only at h; omega
+      · have := hgt x h; omega
+
+
+/-- `advance_set_b!` of `intersection::apply` followed by the rest of the loop -/
+def advB (mx fuel : Nat) (bs done' as' : List Interval) : List Interval :=
+  match bs with
+  | b' :: bs' => intersectLoop mx fuel done' as' b' bs'
+  | [] => done'.reverse
+
+/-- result of one run of the loop: `R` is what the loop appends to the already finished slots -/
+theorem intersectLoop_spec (mx : Nat) : ∀ (fuel : Nat) (done as : List Interval) (b : Interval) (bs : List Interval),
+    WF as → WF (b :: bs) → (∀ c ∈ as, c.hi ≤ mx) → 2 * as.length + bs.length + 1 ≤ fuel →
+    ∃ R, intersectLoop mx fuel done as b bs = done.reverse ++ R ∧ WF R ∧
+      (∀ x, Mem R x ↔ Mem as x ∧ Mem (b :: bs) x) := by
+  intro fuel
+  induction fuel with
+  | zero => intro done as b bs _ _ _ h; omega
+  | succ fuel ih =>
+    intro done as b bs hA hB hmx hfuel
+    cases as with
+    | nil =>
+      exact ⟨[], by simp [intersectLoop], WF.nil, fun x => by simp [Mem]⟩
+    | cons a as =>
+      have hav := hA.head_valid
+      have hbv := hB.head_valid
+      have hgA := mem_tail_gt hA
+      have hgB := mem_tail_gt hB
+      have hmxt : ∀ c ∈ as, c.hi ≤ mx := fun c hc => hmx c (List.mem_cons_of_mem _ hc)
+      simp only [List.length_cons] at hfuel
+      -- emit `o`, then continue with `as'` against the same `b :: bs`
+      have stepA : ∀ (o : Interval), o.lo ≤ o.hi →
+          (∀ x, inIv o x ↔ inIv a x ∧ Mem (b :: bs) x) → (∀ x, inIv o x → x ≤ a.hi) →
+          ∃ R, intersectLoop mx fuel (o :: done) as b bs = done.reverse ++ R ∧ WF R ∧
+            (∀ x, Mem R x ↔ Mem (a :: as) x ∧ Mem (b :: bs) x) := by
+        intro o ho hmem hle
+        obtain ⟨R1, h1, h2, h3⟩ := ih (o :: done) as b bs hA.tail hB hmxt (by omega)
+        refine ⟨o :: R1, by rw [h1]; simp, ?_, ?_⟩
+        · refine wf_cons_of_mem o R1 h2 ho ?_
+          intro x hx; have := hgA x ((h3 x).1 hx).1; have := hle o.hi ⟨ho, Nat.le_refl _⟩; omega
+        · intro x; rw [mem_cons o R1 x, mem_cons a as x, h3 x, hmem x]
+          constructor
+          · rintro (h | h)
+            · exact ⟨Or.inl h.1, h.2⟩
+            · exact ⟨Or.inr h.1, h.2⟩
+          · rintro ⟨h | h, h'⟩
+            · exact Or.inl ⟨h, h'⟩
+            · exact Or.inr ⟨h, h'⟩
+      -- drop `a` silently
+      have dropA : (∀ x, ¬ (inIv a x ∧ Mem (b :: bs) x)) →
+          ∃ R, intersectLoop mx fuel done as b bs = done.reverse ++ R ∧ WF R ∧
+            (∀ x, Mem R x ↔ Mem (a :: as) x ∧ Mem (b :: bs) x) := by
+        intro hno
+        obtain ⟨R1, h1, h2, h3⟩ := ih done as b bs hA.tail hB hmxt (by omega)
+        refine ⟨R1, h1, h2, ?_⟩
+        intro x; rw [h3 x, mem_cons a as x]
+        constructor
+        · rintro ⟨h, h'⟩; exact ⟨Or.inr h, h'⟩
+        · rintro ⟨h | h, h'⟩
+          · exact absurd ⟨h, h'⟩ (hno x)
+          · exact ⟨h, h'⟩
+      -- `advance_set_b!` after emitting the slots `os` (0 or 1), continuing with `as'`
+      have stepB : ∀ (os as' : List Interval), WF as' → (∀ c ∈ as', c.hi ≤ mx) → as'.length ≤ as.length + 1 →
+          os.length ≤ 1 → (∀ o ∈ os, o.lo ≤ o.hi) →
+          (∀ x, Mem os x ↔ Mem (a :: as) x ∧ inIv b x) → (∀ x, Mem os x → x ≤ b.hi) →
+          (∀ x, b.hi + 1 < x → (Mem as' x ↔ Mem (a :: as) x)) → (∀ x, Mem as' x → b.hi < x) →
+          ∃ R, advB mx fuel bs (os ++ done) as' = done.reverse ++ R ∧ WF R ∧
+            (∀ x, Mem R x ↔ Mem (a :: as) x ∧ Mem (b :: bs) x) := by
+        intro os as' hwf' hmx' hlen' hos hov hmem hle hrest hgt
+        have hosR : os.reverse = os := by
+          rcases os with _ | ⟨o, _ | ⟨o2, r⟩⟩ <;> simp at hos ⊢
+        cases bs with
+        | nil =>
+          refine ⟨os, by simp [advB, hosR], ?_, ?_⟩
+          · rcases os with _ | ⟨o, _ | ⟨o2, r⟩⟩
+            · exact WF.nil
+            · exact WF.cons (hov o (by simp)) WF.nil (by simp)
+            · simp at hos
+          · intro x; rw [hmem x, mem_cons b [] x]
+            constructor
+            · rintro ⟨h, h'⟩; exact ⟨h, Or.inl h'⟩
+            · rintro ⟨h, h' | h'⟩
+              · exact ⟨h, h'⟩
+              · exact absurd h' (mem_nil x)
+        | cons b' bs' =>
+          simp only [advB]
+          have hB' := hB.tail
+          have hb'gt : ∀ x, Mem (b' :: bs') x → b.hi + 1 < x := hgB
+          obtain ⟨R1, h1, h2, h3⟩ := ih (os ++ done) as' b' bs' hwf' hB' hmx' (by simp only [List.length_cons] at hfuel ⊢; omega)
+          refine ⟨os ++ R1, by rw [h1]; simp [hosR], ?_, ?_⟩
+          · rcases os with _ | ⟨o, _ | ⟨o2, r⟩⟩
+            · simpa using h2
+            · refine wf_cons_of_mem o R1 h2 (hov o (by simp)) ?_
+              intro x hx
+              have := hb'gt x ((h3 x).1 hx).2
+              have := hle o.hi ⟨o, by simp, ⟨hov o (by simp), Nat.le_refl _⟩⟩
+              omega
+            · simp at hos
+          · intro x
+            rw [mem_append, hmem x, h3 x, mem_cons b (b' :: bs') x]
+            constructor
+            · rintro (⟨h, h'⟩ | ⟨h, h'⟩)
+              · exact ⟨h, Or.inl h'⟩
+              · exact ⟨(hrest x (hb'gt x h')).1 h, Or.inr h'⟩
+            · rintro ⟨h, h' | h'⟩
+              · exact Or.inl ⟨h, h'⟩
+              · exact Or.inr ⟨(hrest x (hb'gt x h')).2 h, h'⟩
+      have hsing : ∀ (o : Interval) (x : Nat), Mem [o] x ↔ inIv o x := by intro o x; simp [Mem]
+      have hBge : ∀ x, Mem (b :: bs) x → b.lo ≤ x := fun x hx => hB.mem_ge_head hx
+      have hBcases : ∀ x, Mem (b :: bs) x → inIv b x ∨ b.hi + 1 < x := by
+        intro x hx; rcases (mem_cons ..).1 hx with h | h
+        · exact Or.inl h
+        · exact Or.inr (hgB x h)
+      have hAcases : ∀ x, Mem (a :: as) x → inIv a x ∨ a.hi + 1 < x := by
+        intro x hx; rcases (mem_cons ..).1 hx with h | h
+        · exact Or.inl h
+        · exact Or.inr (hgA x h)
+      -- the two ways `stepB` is used: `as' = as` and `as' = splitOffA .. ++ as`
+      have stepB_same : ∀ (os : List Interval), os.length ≤ 1 → (∀ o ∈ os, o.lo ≤ o.hi) → a.hi = b.hi →
+          (∀ x, Mem os x ↔ Mem (a :: as) x ∧ inIv b x) → (∀ x, Mem os x → x ≤ b.hi) →
+          ∃ R, advB mx fuel bs (os ++ done) as = done.reverse ++ R ∧ WF R ∧
+            (∀ x, Mem R x ↔ Mem (a :: as) x ∧ Mem (b :: bs) x) := by
+        intro os hos hov hle hmem hle'
+        refine stepB os as hA.tail hmxt (by omega) hos hov hmem hle' ?_ ?_
+        · intro x hx; rw [mem_cons a as x]
+          constructor
+          · exact Or.inr
+          · rintro (h | h)
+            · unfold inIv at h; omega
+            · exact h
+        · intro x hx; have := hgA x hx; omega
+      have stepB_split : ∀ (os : List Interval), os.length ≤ 1 → (∀ o ∈ os, o.lo ≤ o.hi) → b.hi < a.hi → a.lo ≤ b.hi + 1 →
+          (∀ x, Mem os x ↔ Mem (a :: as) x ∧ inIv b x) → (∀ x, Mem os x → x ≤ b.hi) →
+          ∃ R, advB mx fuel bs (os ++ done) (splitOffA mx a b ++ as) = done.reverse ++ R ∧ WF R ∧
+            (∀ x, Mem R x ↔ Mem (a :: as) x ∧ Mem (b :: bs) x) := by
+        intro os hos hov hlt hlo hmem hle'
+        obtain ⟨s1, s2, s3, s4, s5, s6⟩ := splitOffA_spec mx a b as hA hmx hlt hlo
+        exact stepB os _ s1 s2 s3 hos hov hmem hle' (fun x hx => ⟨fun h => s4 x h hx, fun h => s5 x h hx⟩) s6
+      rcases cmp_cases a.lo b.lo with ⟨hcl, hl⟩ | ⟨hcl, hl⟩ | ⟨hcl, hl⟩ <;>
+      rcases cmp_cases a.hi b.hi with ⟨hch, hh⟩ | ⟨hch, hh⟩ | ⟨hch, hh⟩
+      · -- (lt, lt)
+        by_cases hov : a.hi ≥ b.lo
+        · simp only [intersectLoop, hcl, hch, hov, if_true]
+          refine stepA ⟨b.lo, a.hi⟩ hov ?_ (fun x hx => hx.2)
+          intro x; constructor
+          · intro hx; unfold inIv at hx; simp only at hx
+            exact ⟨⟨by omega, hx.2⟩, (mem_cons ..).2 (Or.inl ⟨hx.1, by omega⟩)⟩
+          · rintro ⟨hx, hxb⟩
+            rcases hBcases x hxb with h | h
+            · exact ⟨h.1, hx.2⟩
+            · unfold inIv at hx; omega
+        · simp only [intersectLoop, hcl, hch, hov, if_false]
+          refine dropA ?_
+          rintro x ⟨hx, hxb⟩
+          have := hBge x hxb; unfold inIv at hx; omega
+      · -- (lt, eq)
+        simp only [intersectLoop, hcl, hch]
+        refine stepB_same [⟨b.lo, a.hi⟩] (by simp) (by intro o ho; simp at ho; subst ho; show b.lo ≤ a.hi; omega) (by omega) ?_ ?_
+        · intro x; rw [hsing, mem_cons a as x]
+          unfold inIv; simp only
+          constructor
+          · intro hx; exact ⟨Or.inl (by omega), by omega⟩
+          · rintro ⟨_, hx⟩; omega
+        · intro x hx; rw [hsing] at hx; unfold inIv at hx; simp only at hx; omega
+      · -- (lt, gt)
+        simp only [intersectLoop, hcl, hch]
+        refine stepB_split [b] (by simp) (by intro o ho; simp at ho; subst ho; exact hbv) hh (by omega) ?_ ?_
+        · intro x; rw [hsing, mem_cons a as x]
+          unfold inIv
+          constructor
+          · intro hx; exact ⟨Or.inl (by omega), hx⟩
+          · rintro ⟨_, hx⟩; exact hx
+        · intro x hx; rw [hsing] at hx; exact hx.2
+      · -- (eq, lt)
+        simp only [intersectLoop, hcl, hch]
+        refine stepA a hav ?_ (fun x hx => hx.2)
+        intro x; constructor
+        · intro hx; exact ⟨hx, (mem_cons ..).2 (Or.inl (by unfold inIv at hx ⊢; omega))⟩
+        · exact fun h => h.1
+      · -- (eq, eq)
+        simp only [intersectLoop, hcl, hch]
+        refine stepB_same [a] (by simp) (by intro o ho; simp at ho; subst ho; exact hav) (by omega) ?_ ?_
+        · intro x; rw [hsing]
+          constructor
+          · intro hx; exact ⟨(mem_cons ..).2 (Or.inl hx), by unfold inIv at hx ⊢; omega⟩
+          · rintro ⟨hx, hxb⟩
+            rcases hAcases x hx with h | h
+            · exact h
+            · unfold inIv at hxb; omega
+        · intro x hx; rw [hsing] at hx; unfold inIv at hx; omega
+      · -- (eq, gt)
+        simp only [intersectLoop, hcl, hch]
+        refine stepB_split [b] (by simp) (by intro o ho; simp at ho; subst ho; exact hbv) hh (by omega) ?_ ?_
+        · intro x; rw [hsing, mem_cons a as x]
+          unfold inIv
+          constructor
+          · intro hx; exact ⟨Or.inl (by omega), hx⟩
+          · rintro ⟨_, hx⟩; exact hx
+        · intro x hx; rw [hsing] at hx; exact hx.2
+      · -- (gt, lt)
+        simp only [intersectLoop, hcl, hch]
+        refine stepA a hav ?_ (fun x hx => hx.2)
+        intro x; constructor
+        · intro hx; exact ⟨hx, (mem_cons ..).2 (Or.inl (by unfold inIv at hx ⊢; omega))⟩
+        · exact fun h => h.1
+      · -- (gt, eq)
+        simp only [intersectLoop, hcl, hch]
+        refine stepB_same [a] (by simp) (by intro o ho; simp at ho; subst ho; exact hav) (by omega) ?_ ?_
+        · intro x; rw [hsing]
+          constructor
+          · intro hx; exact ⟨(mem_cons ..).2 (Or.inl hx), by unfold inIv at hx ⊢; omega⟩
+          · rintro ⟨hx, hxb⟩
+            rcases hAcases x hx with h | h
+            · exact h
+            · unfold inIv at hxb; omega
+        · intro x hx; rw [hsing] at hx; unfold inIv at hx; omega
+      · -- (gt, gt)
+        by_cases hov : a.lo ≤ b.hi
+        · simp only [intersectLoop, hcl, hch, hov, if_true]
+          refine stepB_split [⟨a.lo, b.hi⟩] (by simp) (by intro o ho; simp at ho; subst ho; exact hov) hh (by omega) ?_ ?_
+          · intro x; rw [hsing, mem_cons a as x]
+            unfold inIv; simp only
+            constructor
+            · intro hx; exact ⟨Or.inl (by omega), by omega⟩
+            · rintro ⟨hx | hx, hxb⟩
+              · omega
+              · have := hgA x hx; omega
+          · intro x hx; rw [hsing] at hx; exact hx.2
+        · simp only [intersectLoop, hcl, hch, hov, if_false]
+          refine stepB [] (a :: as) hA hmx (by simp) (by simp) (by simp) ?_ (by intro x hx; exact absurd hx (mem_nil x)) (fun x _ => Iff.rfl) ?_
+          · intro x; constructor
+            · intro hx; exact absurd hx (mem_nil x)
+            · rintro ⟨hx, hxb⟩
+              rcases hAcases x hx with h | h <;> (unfold inIv at *; omega)
+          · intro x hx
+            rcases hAcases x hx with h | h <;> (unfold inIv at *; omega)
+
+
+/-- `intersection::apply` computes the intersection and keeps the normal form (`mx` = the integer
+    type's maximum; every stored bound is ≤ `mx`) -/
+theorem intersectApply_spec (mx : Nat) (sa sb : List Interval) (hA : WF sa) (hB : WF sb) (hmx : ∀ c ∈ sa, c.hi ≤ mx) :
+    WF (intersectApply mx sa sb) ∧ ∀ x, Mem (intersectApply mx sa sb) x ↔ Mem sa x ∧ Mem sb x := by
+  unfold intersectApply
+  cases sa with
+  | nil => exact ⟨WF.nil, fun x => by simp [Mem]⟩
+  | cons a as =>
+    cases sb with
+    | nil => exact ⟨WF.nil, fun x => by simp [Mem]⟩
+    | cons b bs =>
+      simp only
+      obtain ⟨R, h1, h2, h3⟩ := intersectLoop_spec mx (2 * ((a :: as).length + (b :: bs).length) + 2) [] (a :: as) b bs hA hB hmx
+        (by simp only [List.length_cons]; omega)
+      rw [h1]
+      simpa using ⟨h2, h3⟩
+
 end Quic.Proofs.IvLemmas
